@@ -39,6 +39,7 @@
   inline_real_eq_runtime_illformed_partial
   inline_real_seq_illformed_partial
   seq_more_fuel_same_answers_and_loader
+  failed_request_more_fuel_further_loads
 -/
 import Genshi.Lemmas.InclErase
 import Genshi.Lemmas.InclSpec
@@ -46,7 +47,7 @@ import Genshi.Lemmas.InclGuard
 import Genshi.Lemmas.InclIllSim
 import Genshi.Lemmas.InclSeq
 import Genshi.Lemmas.InclSpecZ
-import Genshi.Lemmas.InclLog
+import Genshi.Lemmas.InclLogPre
 import Genshi.Gen.Incl
 namespace Genshi.Props.C11
 open Genshi.Incl
@@ -709,6 +710,37 @@ theorem seq_more_fuel_same_answers_and_loader (m : Mode) (files : Files) {f g : 
       rw [h1, ih _ hno.2]
   exact key qs [] hno
 
+/-- **a request that hits the limit** (every file set, every mode): with more fuel it performs the same loads and
+possibly further ones (`logN_pre/logL_pre/logR_pre`: the log at fuel `f` is a prefix of the log at `g ≥ f`), so
+the loader's state after the failed request at the larger fuel is the state at the smaller fuel with further
+loads replayed on top -/
+theorem failed_request_more_fuel_further_loads (m : Mode) (files : Files) {f g : Nat} (hfg : f ≤ g) (c : Cache) (q : Req) :
+    ∃ t, cacheAfterFail m files g c q = replayLoads files (cacheAfterFail m files f c q) t := by
+  cases m with
+  | runtime => exact ⟨[], rfl⟩
+  | inlineM =>
+    simp only [cacheAfterFail]
+    cases hl : loadT .inlineM files q.1 q.2.1 { St.init q.2.2 with cache := c } with
+    | fuel => exact ⟨[], rfl⟩
+    | err e => exact ⟨[], rfl⟩
+    | ok p =>
+      obtain ⟨body, st1⟩ := p
+      simp only
+      obtain ⟨t, ht⟩ := logL_pre .inlineM files (render_le .inlineM files hfg) (logR_eq .inlineM files hfg)
+        (logR_pre .inlineM files hfg) body (.ofKind q.2.1) st1
+      exact ⟨t, by rw [ht, replayLoads_append]⟩
+  | inlineU =>
+    simp only [cacheAfterFail]
+    cases hl : loadT .inlineU files q.1 q.2.1 { St.init q.2.2 with cache := c } with
+    | fuel => exact ⟨[], rfl⟩
+    | err e => exact ⟨[], rfl⟩
+    | ok p =>
+      obtain ⟨body, st1⟩ := p
+      simp only
+      obtain ⟨t, ht⟩ := logL_pre .inlineU files (render_le .inlineU files hfg) (logR_eq .inlineU files hfg)
+        (logR_pre .inlineU files hfg) body (.ofKind q.2.1) st1
+      exact ⟨t, by rw [ht, replayLoads_append]⟩
+
 /-- **the same conditions of termination, for sequences**: a list of answers none of which is "out of fuel" is
 what the code's inline mode gives for the sequence with some fuel iff it is what run-time mode gives with some
 fuel (recursive and mutually recursive includes, failed requests in the sequence, the loader's state carried
@@ -1004,6 +1036,20 @@ example : (renderSeqF .inlineU exFail 6 [] exFailReqs).all (fun x => x.1 != .fue
       (renderSeqF .inlineU exFail 6 [] exFailReqs).map (fun x => (x.1, x.2.map (·.1))) := by decide +kernel
 
 def nC : Name := ['c', '.', 'h', 't', 'm', 'l']
+
+/-- `a.html` includes `${h0}` = `b.html`, which includes `${h1}` = `c.html`, which includes `${h2}` = `a.html`: an endless
+    descent through expression-valued includes -/
+def exDeep : Files :=
+  [[(nA, ⟨.markup, some [.elem ['d'] [.include (.dyn [.var ['h', '0']]) .markup false [] nA]]⟩),
+    (nB, ⟨.markup, some [.elem ['e'] [.include (.dyn [.var ['h', '1']]) .markup false [] nB]]⟩),
+    (nC, ⟨.markup, some [.elem ['p'] [.include (.dyn [.var ['h', '2']]) .markup false [] nC]]⟩)]]
+def exDeepData : List (Name × Value) := [(['h', '0'], .str nB), (['h', '1'], .str nC), (['h', '2'], .str nA)]
+
+/-- non-vacuity of `failed_request_more_fuel_further_loads`, and what saturation means: the request runs out of
+every fuel; with fuel 0 the loader is left with 2 prepared templates, from fuel 1 on with all 3 -/
+example : (List.range 6).map (fun f => (renderOnF .inlineU exDeep f [] (nA, .markup, exDeepData)).1) = List.replicate 6 .fuel ∧
+    (List.range 6).map (fun f => ((renderOnF .inlineU exDeep f [] (nA, .markup, exDeepData)).2.map (·.1)).length) = [2, 3, 3, 3, 3, 3] := by
+  decide +kernel
 /-- `a.html` = `<d><xi:include href="${h0}"/></d>`, `b.html` = `<e>B</e>`,
     `c.html` = `<e><xi:include href="b.html"/><py:if test="s0"><xi:include href="bad.html"/></py:if></e>`,
     `bad.html` is not well-formed -/
